@@ -697,7 +697,7 @@ class RefParser:
 
 
 MAX_INT_DIGITS = 4300  # CPython's default sys.get_int_max_str_digits(): int() of a longer digit string raises
-MAX_DEPTH = 150  # bracket nesting beyond which the interpreter's recursion limit may be hit (open finding of C17)
+MAX_DEPTH = 150  # bracket nesting beyond which the interpreter's recursion limit may be hit (a parse error since F21; not modelled)
 
 
 def bracket_depth(text):
